@@ -481,6 +481,11 @@ def c_file_source(fp, relaxed=False, directives_only=False):
 
     total_sloc = 0
 
+    # A "/" directly before a backslash-newline is only resolved (comment
+    # opener or ordinary character) by what follows on a later physical
+    # line, but it belongs to the physical line it was written on.
+    pending_slash = None
+
     physical_line_num = 0
     for physical_line_num, line in enumerate(fp, start=1):
         current_physical_line.__init__()
@@ -493,11 +498,31 @@ def c_file_source(fp, relaxed=False, directives_only=False):
         continued = end > 0 and line[end - 1] == "\\"
         if continued:
             end -= 1
+
+        slash_is_code = (
+            pending_slash is not None
+            and not (end == 0 and continued)
+            and not (end > 0 and line[0] in "/*")
+        )
         cleaner.process(it.islice(line, 0, end))
         if not continued and cleaner.state[-1] != "IN_BLOCK_COMMENT":
             cleaner.logical_newline()
 
-        if not current_physical_line.category() == "BLANK":
+        own_line = current_physical_line
+        if slash_is_code and current_physical_line.parts[:1] == ["/"]:
+            # Credit the "/" to the line it was written on.
+            if pending_slash not in curr_line.lines:
+                curr_line.add_physical_line(pending_slash)
+            own_line = one_space_line()
+            own_line.parts = current_physical_line.parts[1:]
+
+        if not (end == 0 and continued and pending_slash is not None):
+            pending_slash = None
+        if continued and cleaner.state[-1] == "FOUND_SLASH":
+            if pending_slash is None:
+                pending_slash = physical_line_num
+
+        if not own_line.category() == "BLANK":
             curr_line.add_physical_line(physical_line_num)
 
         curr_line.join(current_physical_line)
